@@ -489,6 +489,8 @@ H("space_sent_tail_native", ["C03", "C12"], "replay-only", "connection::spaces::
   [("n", "u16")], 4, [], ["PacketSpace::sent", "PacketSpace::take"], "native replay body of E2 query e2_packet_space_sent_tail_counter")
 H("packet_truncated_prefixes_native", ["C04", "C03"], "replay-only", "packet::truncated_prefixes_native",
   [("sample", "u8")], 4, [], ["PartialDecode::new", "PartialDecode::finish", "PartialDecode::decrypt_header"], "native replay body of E2 query e2_decrypt_header_sample_bounds")
+H("assembler_empty_frame_native", ["C01", "C03"], "replay-only", "connection::assembler::empty_frame_native",
+  [("x", "u8")], 4, [], ["Assembler::insert", "Assembler::read", "RangeSet::replace"], "native replay body of E2 query e2_assembler_insert_no_empty_range; demonstration for finding 20")
 H("streams_stop_sending_native", ["C11"], "replay-only", "connection::streams::stop_sending_native",
   [("state", "u8")], 4, [], ["StreamsState::received_stop_sending", "Send::try_stop", "SendStream::write"], "native replay body of E2 query e2_received_stop_sending")
 H("streams_reset_acked_native", ["C11"], "replay-only", "connection::streams::reset_acked_native",
